@@ -16,7 +16,7 @@ from pathlib import Path
 
 ROOT = Path(__file__).resolve().parents[1]
 REPO = '/repo'
-WT = '/tmp/seedrun-repo'
+WT = os.environ.get('SEEDRUN_WT', '/tmp/seedrun-repo')     # several sweeps over disjoint names may run side by side
 
 
 def sh(*a, **kw):
